@@ -329,7 +329,7 @@ fn run_sequence(secret: [u8; 32], tc: u64, ops: &[u64], order_seed: u64) -> (Vec
     // holder with full capacity up front: the harness itself must never free a block holding the secret
     let mut held: Vec<Option<Held>> = Vec::with_capacity(2 * ops.len() + 8);
     let nz = &mut not_zeroed;
-    let (res, rep) = alloc::scan_frees(secret, || {
+    let (res, rep) = alloc::scan_frees(secret, &pad_fps, || {
         catch(|| {
             let mut rs = Rng::new(order_seed);
             for &op in ops {
@@ -472,7 +472,12 @@ fn run_sequence(secret: [u8; 32], tc: u64, ops: &[u64], order_seed: u64) -> (Vec
         })
     });
     drop(held);
-    let hits: Vec<(usize, usize)> = rep.hits.iter().filter(|h| !pad_fps.iter().any(|(l, fp)| *l == h.size && *fp == h.fp)).map(|h| (h.size, h.offset)).collect();
+    let hits: Vec<(usize, usize)> = rep.hits.iter().map(|h| (h.size, h.offset)).collect();
+    if std::env::var("QPV_C33_DEBUG").is_ok() {
+        for h in rep.hits.iter() {
+            eprintln!("c33-debug: freed block size={} offset={} head={}", h.size, h.offset, hex::encode(&h.head[..h.size.min(64)]));
+        }
+    }
     (hits, not_zeroed, res.err())
 }
 
@@ -562,7 +567,7 @@ pub fn run_c33(ctx: &Ctx) {
         let _ = blocks;
         // positive control of the scanner itself: an unscrubbed Vec holding the image must be seen
         let secret = derive_secret(12345);
-        let (_, rep) = alloc::scan_frees(secret, || {
+        let (_, rep) = alloc::scan_frees(secret, &[], || {
             let v = secret.to_vec();
             std::hint::black_box(&v);
             drop(v);
@@ -582,6 +587,7 @@ pub fn replay(case: &serde_json::Value) -> Result<bool, String> {
         let ops: Vec<u64> = case["ops"].as_array().ok_or("ops")?.iter().map(|x| x.as_u64().unwrap_or(0)).collect();
         let order_seed = case["order_seed"].as_u64().unwrap_or(0);
         let (hits, nz, p) = run_sequence(derive_secret(seed), tc, &ops, order_seed);
+        eprintln!("replay: hits (block size, offset of the secret image) = {:?}; buffer-not-zeroed = {}; panic = {:?}; size_of<Option<Held>> = {}", hits, nz, p, std::mem::size_of::<Option<Held>>());
         return Ok(!hits.is_empty() || nz || p.is_some());
     }
     Err("C32 cases are regenerated from the recorded seed".into())
